@@ -352,6 +352,22 @@ func TestVP_C06_outside_limits(t *testing.T) {
 			}
 			outcome = "accepted-equal"
 		}
+		// the same out-of-limit value written by the independent writer (the
+		// production encoder refuses most of them, a peer's bytes need not come
+		// from it): the decoder must reject it or return exactly this value,
+		// and must not crash
+		var rb []byte
+		fits := false
+		if vpCatch(func() { rb, fits = vpC06RefEncodeFits(vpC06Clone(tx)) }) == nil && fits && len(rb) <= config.TransactionMaximumSize {
+			if dec, err := vpC06Unmarshal(t, rb); err == nil {
+				if got := vpC06View(&dec.SignedTransaction); got != want {
+					t.Fatalf("out-of-limit encoding (%s) from the reference writer accepted as a different transaction\nwant %s\ngot  %s", kind, vpC06Trunc(want), vpC06Trunc(got))
+				}
+				c.Class("ref-encoding-accepted-equal")
+			} else {
+				c.Class("ref-encoding-rejected")
+			}
+		}
 		// the public entry point panics in either rejecting case (Debug build)
 		if outcome != "accepted-equal" && config.Debug && tx.Version >= TxVersionHashSignature {
 			if p := vpCatch(func() { _ = vpC06Clone(tx).AsVersioned().Marshal() }); p == nil {
